@@ -3,6 +3,7 @@ package main
 import (
 	"fmt"
 	"go/types"
+	"math/big"
 	"strings"
 
 	"golang.org/x/tools/go/ssa"
@@ -97,7 +98,21 @@ type Iface struct {
 type Tuple []Val
 
 // Big models math/big.Int as a 128-bit two's complement bit-vector.
-type Big struct{ T string }
+type Big struct {
+	T string   // SMT term (when V == nil)
+	V *big.Int // concrete value
+}
+
+func (b Big) Term() string {
+	if b.V != nil {
+		v := new(big.Int).Set(b.V)
+		if v.Sign() < 0 {
+			v.Add(v, new(big.Int).Lsh(big.NewInt(1), 128))
+		}
+		return "(_ bv" + v.String() + " 128)"
+	}
+	return b.T
+}
 
 type Func struct {
 	Fn  *ssa.Function
@@ -278,7 +293,7 @@ func (m *Machine) newCell(v Val) *Cell { return &Cell{V: v, Epoch: m.epoch} }
 
 func (m *Machine) zero(t types.Type) Val {
 	if isBigInt(t) {
-		return Big{T: bigZero}
+		return Big{V: new(big.Int)}
 	}
 	switch u := t.Underlying().(type) {
 	case *types.Basic:
